@@ -345,6 +345,25 @@ theorem extension_fails (E : Ext) (due : Bool) (s : Bytes) (db : Bytes) (wals : 
   exact restore_extension_fails E s db wals (install_implies_restore E due s db wals h).1 e he db' wals'
     (install_implies_restore E due _ db' wals' h1).1
 
+/-- **streamed_snapshot_installs.** What the streamer emits for a database and WAL files
+that look like SQLite files — header built from their sizes and CRCs — is installed, under
+ANY split into non-empty writes, and the installed files are exactly the source files. -/
+theorem streamed_snapshot_installs (E : Ext) (due : Bool) (hb db : Bytes) (wals : List Bytes)
+    (hl : hb.length < 4294967296)
+    (hd : E.decode hb = some ⟨1, .full (some (hdrFor E db)) (wals.map (hdrFor E))⟩)
+    (hvd : E.validDb db = true) (hvw : wals.all E.validWal = true) (hne : ∀ w ∈ wals, w ≠ [])
+    (ws : List Bytes) (hws : ∀ w ∈ ws, w ≠ []) (hf : ws.flatten = frame hb (db :: wals)) :
+    install E due ws = .installed db wals ∧ restore E (frame hb (db :: wals)) = .ok db wals := by
+  have hr := frame_restores E hb db wals hl hd
+  have h1 := restore_implies_install E due _ db wals hr hvd hvw hne
+  refine ⟨?_, hr⟩
+  have hne' : ws ≠ [] := by
+    intro e; subst e
+    have : (frame hb (db :: wals)).length = 0 := by rw [← hf]; rfl
+    simp [frame, enc32] at this
+  rw [← h1, ← hf]; unfold install
+  exact runSink_flatten E due _ ws _ rfl hne' hws
+
 /-- the CRC caveat: no two different byte strings of the same length share a CRC. (False
 of any 32-bit checksum in general; it is the stated assumption under which "checksum
 matches" means "bytes equal".) -/
